@@ -137,3 +137,138 @@ def replayer(o, model):
     want = {"v": {"Object": {"a": {"Object": {}}, "b": {"Integer": "1"}, "list": {"Array": [{"Array": []}, {"Integer": "7"}]}}},
             "r1": "Null", "r2": "Null", "r3": {"Integer": "1"}, "r4": "Null"}
     return "run", {"source": src, "event": {}}, {"outcome": "ok", "event_eq": want}
+
+
+# ---------------------------------------------------------------------------------------------------------------
+# crud::get (src/value/value/crud/get.rs): the read side of the laws.  The loop is unrolled DEPTH times; the
+# collection look-ups (`get_value` of the BTreeMap / Vec side of ValueCollection) and the path iterator are oracles.
+# Along every path of the real body a reference walk is replayed over the recorded events:
+#   * segment i is looked up in the container held by the value reached after i steps (root, then what look-up i-1
+#     returned), fields in objects and indices in arrays, with the segment's own key / index;
+#   * an exhausted path returns Some(the value reached), a look-up that finds nothing ends in None;
+#   * a segment that is not looked up ends in None and -- a solver obligation over the path condition -- only when
+#     the value reached is not a container of the segment's kind ("a path through a non-container finds nothing",
+#     and conversely a container of the right kind is always consulted).
+
+def m_get_value(ex, st, callee, args, dest_ty, frame, depth):
+    k = len([e for e in st.trace if e["kind"] == "get_value"])
+    ev = {"kind": "get_value", "recv": ex.val_name(st, args[0]), "key": ex.val_name(st, args[1]), "callee": callee}
+    out = []
+    s_none = st.fork()
+    s_none.trace = list(st.trace) + [dict(ev, found=False)]
+    out.append((s_none, Outcome("ret", Enum(dest_ty, bv64(0), {}))))
+    st.trace.append(dict(ev, found=True))
+    st.heap[f"nested{k}"] = ex.fresh(VAL, f"nested{k}")
+    out.append((st, Outcome("ret", ex.mk_enum(dest_ty, "Some", [Ref("&" + VAL, f"nested{k}", ())]))))
+    return out
+
+
+def m_iter_next_v(ex, st, callee, args, dest_ty, frame, depth):
+    n = len([e for e in st.trace if e["kind"] == "next"])
+    v = ex.fresh(dest_ty, f"segment{n}")
+    st.trace.append({"kind": "next", "value": v, "ty": dest_ty})
+    return [(st, Outcome("ret", v))]
+
+
+GET_ORACLES = [
+    (re.compile(r" as ValueCollection>::get_value$"), m_get_value),
+    (re.compile(r"BorrowedSegment<'a>> as Iterator>::next$"), m_iter_next_v),
+]
+
+
+def get_obligations(S, DEPTH=2):
+    obls, fns = [], []
+    cands = [f for f in S.prog.free.get("get", []) if f.name.endswith("crud::get::get")]
+    if len(cands) != 1:
+        raise Unencodable(f"crud::get::get: {len(cands)} bodies")
+    f = cands[0]
+    fns.append((f.name, f.text_hash))
+    ex = S.executor(oracles=GET_ORACLES, opaque=[r"^<Cow<'_, str> as AsRef<str>>::as_ref$"], loop_bound=DEPTH)
+    root = ex.fresh("&" + VAL, "root")
+    paths = ex.run(f, [root, ex.fresh("impl Iterator", "path_iter")])
+    for n_, h in ex.stats["fns_entered"].items():
+        fns.append((n_, h))
+    seen = {"some": 0, "lookup-none": 0, "mismatch": 0, "outside": 0, "two-steps": 0}
+    SEG = "path::borrowed::BorrowedSegment<'_>"
+    for pi, p in enumerate(paths):
+        def add(tag, post, detail=None):
+            role = f"C18:crud::get:{tag}"
+            o = Obl(role, {"C18"}, f"{role}#path{pi}", p, post, detail)
+            o.ex = ex
+            obls.append(o)
+        if p.outcome.kind == "loopbound":
+            seen["outside"] += 1
+            continue
+        if p.outcome.kind != "ret":
+            o = Obl(f"C04:crud::get:{p.outcome.kind}", {"C04", "C18"}, f"C04:crud::get:{p.outcome.kind}#path{pi}", p, z3.BoolVal(False), {"msg": p.outcome.msg})
+            o.ex = ex
+            obls.append(o)
+            continue
+        tr = p.st.trace
+        v = V(ex, p.st)
+        r = p.outcome.value
+        detail = {"steps": [e["kind"] + ("" if e["kind"] == "next" else f"({e['recv']},{e['key']})->{'Some' if e['found'] else 'None'}") for e in tr],
+                  "result": ex.val_name(p.st, r)[:140]}
+        # reference walk
+        cur_name, cur_ref, cur_val = "root*", "root", None
+        i, ok, steps, last = 0, True, 0, None
+        k = 0
+        while k < len(tr):
+            e = tr[k]
+            if e["kind"] != "next":
+                ok = False
+                break
+            last = ("next", e)
+            if k + 1 < len(tr) and tr[k + 1]["kind"] == "get_value":
+                g = tr[k + 1]
+                is_field = g["recv"] == f"&{cur_name}.Object.0" and g["key"] == f"as_ref(&segment{i}.Some.0.Field.0)" and "BTreeMap<" in g["callee"]
+                is_index = g["recv"] == f"&{cur_name}.Array.0" and g["key"] == f"&segment{i}.Some.0.Index.0" and g["callee"].startswith("<Vec<")
+                if not (is_field or is_index):
+                    ok = False
+                    break
+                last = ("get", g)
+                if g["found"]:
+                    cur_name, cur_ref = f"nested{i}", f"&nested{i}"
+                    steps += 1
+                k += 2
+            else:
+                k += 1
+            i += 1
+        if not ok:
+            add("each-segment-is-looked-up-in-the-value-reached-so-far", z3.BoolVal(False), detail)
+            continue
+        if steps >= 2:
+            seen["two-steps"] += 1
+        rty = f.ret
+        if last[0] == "get" and not last[1]["found"]:
+            seen["lookup-none"] += 1
+            add("failed-look-up-finds-nothing", v.is_variant(r, "None", rty), detail)
+            continue
+        if last[0] == "get":
+            add("walk-continues-after-a-successful-look-up", z3.BoolVal(False), detail)
+            continue
+        seg = last[1]["value"]
+        d_seg = v.discr(seg)
+        exhausted = p.st.simp(d_seg)
+        if z3.is_bv_value(exhausted) and exhausted.as_long() == 0:
+            seen["some"] += 1
+            want = "Some(" + cur_ref + ")"
+            add("exhausted-path-returns-the-value-reached", z3.BoolVal(ex.val_name(p.st, r) == want), {**detail, "want": want})
+            continue
+        # a segment that was not looked up: result None, and the value reached is not a container of that kind
+        seen["mismatch"] += 1
+        segv = v.field(seg, "Some", 0, SEG)
+        curv = p.st.heap[cur_name] if cur_name in p.st.heap else ex.read(p.st, *ex.deref_target(p.st, root))
+        through = z3.Or(z3.And(v.is_variant(segv, "Field", SEG), v.is_variant(curv, "Object", VAL)),
+                        z3.And(v.is_variant(segv, "Index", SEG), v.is_variant(curv, "Array", VAL)))
+        add("only-a-non-container-or-mismatching-segment-ends-the-walk", z3.And(v.is_variant(r, "None", rty), z3.Not(through)), detail)
+    if not (seen["some"] >= 2 and seen["lookup-none"] and seen["mismatch"] and seen["two-steps"]):
+        raise Unencodable(f"crud::get: paths seen {seen} (vacuous)")
+    return obls, sorted(set(fns)), seen
+
+
+def get_replayer(o, model):
+    src = ('.v = {"a": {"b": [10, [20, 30]]}, "s": "str", "n": 5}\n'
+           '.r1 = .v.a.b[1][-1]\n.r2 = .v.s.x\n.r3 = .v.n[0]\n.r4 = .v.a[0]\n.r5 = .v.a.b.c\n.r6 = .v.a.b[-3]\n.r7 = .v.a.b[-2]\n.r8 = .v.a.zz.y\n')
+    want = {"r1": {"Integer": "30"}, "r2": "Null", "r3": "Null", "r4": "Null", "r5": "Null", "r6": "Null", "r7": {"Integer": "10"}, "r8": "Null"}
+    return "run", {"source": src, "event": {}}, {"outcome": "ok", "event_eq": want}
